@@ -17,7 +17,7 @@ Extraction "model.ml"
   Packets.tunnel_auth_request Packets.channel_request Packets.receive_payload
   Packets.handshake_response Packets.tunnel_response Packets.tunnel_auth_response
   Packets.channel_response Packets.channel_close_response Packets.data_packet
-  Relay.relay Relay.forward_chunks Relay.rstate0 Framer.frames_of Framing.frame Processor.run Processor.consumed Processor.resolve_dials Processor.resolve_policy_dials Policy.wired_policy Policy.client_ip HostPolicy.allowed_b Token.check_paa Token.mint_paa Token.user_info Token.mint_user Token.token_info_status RdpFile.parse RdpFile.marshal RdpFile.emit RdpFile.load RdpFile.defaults RdpFile.sort_kv RdpFile.render_int RdpFile.atoi Ntlm.nrun Ntlm.nstate0 Config.start Config.subst_key Oidc.orun Oidc.ostate0 Download.download Download.query_info HttpAuth.dispatch HttpAuth.pick_route System.grun System.gstep Kdc.handle Kdc.validate Kdc.encode_msg Kdc.encode_req Kdc.decode_req Processor.tstate0 Processor.wired
+  Relay.relay Relay.forward_chunks Relay.rstate0 Framer.frames_of Framing.frame Processor.run Processor.consumed Processor.resolve_dials Processor.resolve_policy_dials Policy.wired_policy Policy.client_ip HostPolicy.allowed_b Token.check_paa Token.mint_paa Token.user_info Token.mint_user Token.token_info_status RdpFile.parse RdpFile.marshal RdpFile.emit RdpFile.load RdpFile.defaults RdpFile.sort_kv RdpFile.render_int RdpFile.atoi Ntlm.nrun Ntlm.nstate0 Config.start Config.subst_key Config.serves Oidc.orun Oidc.ostate0 Download.download Download.query_info HttpAuth.dispatch HttpAuth.pick_route System.grun System.gstep Kdc.handle Kdc.validate Kdc.encode_msg Kdc.encode_req Kdc.decode_req Processor.tstate0 Processor.wired
   Partial.read_header_src Partial.decode_utf16_src Partial.auth_payload_src Partial.udp_payload_src
   Wire.decode_packet Wire.decode_handshake_response Wire.decode_tunnel_response
   Wire.decode_tunnel_auth_response Wire.decode_channel_response Wire.decode_data
